@@ -1538,6 +1538,12 @@ vbi_caption_channel_switched(vbi_decoder *vbi)
 
 	cc->xds = FALSE;
 
+	/* No current channel: the services of the new station are
+	   unknown. Channel 0 and 2 have MODE_NONE now, data is discarded
+	   until the next mode setting control code of the field. */
+	cc->curr_chan[0] = 0;
+	cc->curr_chan[1] = 0;
+
 	memset(&cc->sub_packet, 0, sizeof(cc->sub_packet));
 
 	cc->info_cycle[0] = 0;
